@@ -21,8 +21,7 @@ SaveE(e, ag, sn) ==
     /\ Clause(e, "c19_results", e.exc = "" => ok.results)
     /\ Clause(e, "c19_axes", e.exc = "" => ok.axes)
     /\ Clause(e, "c19_data", e.exc = "" => ok.data)
-    /\ Clause(e, "c19_rollup", (e.exc = "" /\ NoFilters(e.opts)) =>
-                 RollupsOK(e.rollups, e.table, e.config, e.names, ag))
+    /\ Clause(e, "c19_rollup", e.exc = "" => RollupsOK(e.rollups, e.table, e.config, e.names, ag, e.opts))
     \* the same options on the same store in the same state give the same frame (save is a pure observation)
     /\ Clause(e, "c19_again", e.exc = "" => \A s \in sn : (s.opts = e.opts /\ s.aggd = ag) =>
                                                           (s.frame = e.frame /\ s.rollups = e.rollups))
